@@ -4,8 +4,8 @@ from props import tokcommon as tc
 PROP = "C04"
 ENGINE = "tok+xmltok+total"
 USES_TRANSLATOR = True
-LEAN_TARGETS = ["H5V.Props.C04", "H5V.Props.C04Term", "H5V.Props.C04Xml", "H5V.Props.C04XmlTerm", "H5V.Props.C16"]
-AUDIT_IMPORTS = ["H5V.Props.C04", "H5V.Props.C04Term", "H5V.Props.C04Xml", "H5V.Props.C04XmlTerm", "H5V.Props.C16"]
+LEAN_TARGETS = ["H5V.Props.C04", "H5V.Props.C04Term", "H5V.Props.C04Xml", "H5V.Props.C04XmlTerm", "H5V.Props.C16", "H5V.Props.C04TB"]
+AUDIT_IMPORTS = ["H5V.Props.C04", "H5V.Props.C04Term", "H5V.Props.C04Xml", "H5V.Props.C04XmlTerm", "H5V.Props.C16", "H5V.Props.C04TB"]
 THEOREMS = ["H5V.Props.C04." + t for t in [
     "C04_tok_initial_safe", "C04_tok_no_panic", "C04_tok_run_no_panic", "C04_tok_feed_drains", "C04_tok_eof_is_last",
     # termination (Props/C04Term.lean)
@@ -30,7 +30,15 @@ THEOREMS = ["H5V.Props.C04." + t for t in [
     "C04_xml_session_terminates", "C04_xml_fresh_session_terminates", "C04_xml_suspend_drains", "C04_xml_finish_total",
     "C04_xml_parse_total"]] + ["H5V.Model.XmlTok." + t for t in ["step_safe", "crStep_safe", "step_dec", "step_tinv"]] + [
     # the XML tree builder model completes on every token list (no `expect` site reachable), Props/C16.lean
-    "H5V.Props.C16.C16_no_panic", "H5V.Props.C16.C16_balance"]
+    "H5V.Props.C16.C16_no_panic", "H5V.Props.C16.C16_balance"] + [
+    # the HTML tree builder model: no panic site of mod.rs / rules.rs is reachable, for every token list, option set,
+    # document or fragment start (Props/C04TB.lean; the Text-mode unreachable!() only for token lists that break the
+    # tokenizer protocol)
+    "H5V.Props.C04TB." + t for t in [
+    "C04_tb_inv_new", "C04_tb_no_panic_step", "C04_tb_no_panic_token", "C04_tb_no_panic_tokens", "C04_tb_no_panic",
+    "C04_tb_no_panic_protocol", "C04_tb_no_panic_fragment", "C04_tb_no_panic_protocol_fragment", "C04_tb_total",
+    "C04_tb_total_protocol", "C04_tb_end_total", "C04_tb_benign_not_panic", "C04_tb_benign_cases",
+    "C04_tb_protocol_not_text", "respects_of_respectsB"]]
 TRUSTED = [
     "Lean 4 kernel; axioms ⊆ {propext, Classical.choice, Quot.sound} (audited per run)",
     "tokenizer model lean/H5V/Model/HtmlTok.lean: every assert!/unwrap/expect/panic!/index/from_u32 of tokenizer/mod.rs and "
@@ -43,7 +51,9 @@ TRUSTED = [
     "bisected to the single case by tools/vlib.py (ABORT/timeout); 10^5-deep nesting and 10^5..10^6-character inputs",
 ]
 ASSUMPTIONS = [
-    "C04_partial: totality of the HTML tree builder is not proved (the XML tree builder model is: C16_no_panic); "
+    "C04_partial: for the HTML tree builder model two things remain unproved - that its tree-MOVING sink calls (adoption "
+    "agency, foster parenting, frameset-replaces-body) stay inside the TreeSink contract (so RcDom's own asserts), and the "
+    "fuel of the model's reprocess loop; "
     "they are exercised: no PANIC/ABORT/HANG on any case of any engine in this run, queue drained after every feed, "
     "exactly one EOF delivered last",
     "the sink is contract-abiding (RcDom / the recording sink of the harness)",
@@ -58,7 +68,7 @@ RULE = ("(1) every case of the HTML tokenizer cover (73 start states × 41 chara
         "random tag soup, "
         "under chunk sizes 0/1/7/4096 and option sets. non-trivial = input longer than 8 characters or started in a non-data "
         "state; distinct = distinct (case, output)")
-EXPLANATION = ("HTML tokenizer model: no panic, termination within fuelFor (strictly decreasing measure), feed drains, end() total with EOF last; XML tokenizer model: no panic, termination within fuelFor, feed drains, end() total with EOF last; tree builders and real stack/time are exercised at runtime with a watchdog")
+EXPLANATION = ("HTML tokenizer model: no panic, termination within fuelFor (strictly decreasing measure), feed drains, end() total with EOF last; XML tokenizer model: the same; XML tree builder model total; HTML tree builder model: none of the 49 panic sites of mod.rs/rules.rs reachable (any tokens, documents and fragments); RcDom contract of tree-moving calls and real stack/time are exercised at runtime with a watchdog")
 
 STRESS = ["<", "&", "&a", "&#", "&#x", "<!", "<!-", "<!--", "--", "<a ", "<a b=", "<a b='", "</", "<![CDATA[", "]]", "\r", "\r\n",
           "\0", "<script>", "</script", "<!DOCTYPE", " PUBLIC", "'", "\"", "=", "/", "&amp", "&notit;", "é", "\U0001F600", "<p>", "</p>"]
